@@ -56,3 +56,20 @@ package bytes
 //@   at loop#1.entry use unfold_bcount(b.data, 0, nl); unfold_bsince(b.data, 0, nl)
 //@   at loop#1.back use unfold_bcount(b.data, rangeindex+1, nl); unfold_bsince(b.data, rangeindex+1, nl)
 //@   at return use bcount_bounds(b.data, index, nlOf(b))
+
+// ---- unquoting (external decoder, assumed) ------------------------------------------------------------------
+
+//@ func unquoteBytes
+//@   property C01 C04
+//@   trusted copy of encoding/json's string decoder: deterministic function of its input, panic-free; decoded text is never longer than the quoted one
+//@   ensures ok == unq_ok(s, len(s))
+//@   ensures ok ==> len(t) == unq_len(s, len(s)) && 0 <= unq_len(s, len(s)) && unq_len(s, len(s)) <= len(s) - 2
+//@   no_panic
+
+// length of the value with surrounding quotes removed and escapes decoded (what minLength / maxLength measure)
+//@ fun unquotedLen(b Bytes) Int := (len(b.data) >= 2 && b.data[0] == 34 && b.data[len(b.data)-1] == 34 && unq_ok(b.data, len(b.data))) ? unq_len(b.data, len(b.data)) : len(b.data)
+
+//@ func (Bytes).Unquote
+//@   property C01 C04 C02
+//@   ensures len(result.data) == unquotedLen(b)
+//@   no_panic
